@@ -1,6 +1,4 @@
 #!/bin/bash
-# run every claimed quick check against /repo and report; evidence files are rewritten
+# run every claimed check against /repo in one process (units and Kani harnesses are shared); evidence files are rewritten
 cd /verif
-for p in $(python3 -c "import sys; sys.path.insert(0,'.'); from vx import props; print(' '.join(sorted(props.PROPS)))"); do
-  ./check $p --tier ${1:-quick} | tail -3
-done
+./check --all --tier ${1:-quick}
